@@ -155,6 +155,9 @@ func (g *G) Layout(toks []Tok) *Rendered {
 					w.write(c)
 					if isLineComment(c) {
 						w.write("\n")
+						if !plain && between && g.chance(15, "blank-after-comment") {
+							w.write("\n") // an empty line between a comment and the node it leads
+						}
 						if !plain && g.chance(50, "indent") {
 							w.write("  ")
 						}
@@ -162,6 +165,9 @@ func (g *G) Layout(toks []Tok) *Rendered {
 						post := " "
 						if !plain {
 							post = pickOne(g, []string{" ", "\n", "  "}, "cpost")
+							if between && g.chance(10, "blank-after-block-comment") {
+								post = "\n\n"
+							}
 						}
 						if k == ncom-1 || post != " " {
 							w.write(post)
